@@ -716,6 +716,9 @@ class NpCalls:
         m = (ma * mb).wrap('sum') if (ma is not None and mb is not None) else None
         axes = a.axes if (g is not None and g[0] in ('CART', 'COV')) else None
         interp.emit('dot', node, a=a, b=b)
+        if g is not None and g[0] == 'CART' and is_fractional(a.geo) and b.geo is not None and b.geo[0] == 'LATMAT':
+            # fractional @ lattice matrix: the definition of the Cartesian conversion
+            interp.emit('to_cart', node, lattice=AV(ty='Lattice', frame=b.geo[1], from_matrix=b), arg=a)
         return AV(ty='ndarray', geo=g, axes=axes, deps=self.deps_of(args, kwargs), store='fresh', mono=m, dot=(a, b))
 
     np_matmul = np_dot
